@@ -389,6 +389,10 @@ func (fc *FnCtx) load(s *State, p Val, t types.Type) Val {
 	case VGlobElem:
 		return fc.loadGlobalElem(s, p.Glob, p.Idx)
 	case VPtr:
+		if v, ok := fc.loadSlicePtr(s.heap, p); ok {
+			s.assume(fc.typeAssume(v, s.heap["nalloc"], s.heap["nobj"]))
+			return v
+		}
 		// whole-struct load
 		st, sname, ok := structOf(p.Typ)
 		if !ok {
@@ -402,6 +406,22 @@ func (fc *FnCtx) load(s *State, p Val, t types.Type) Val {
 		return v
 	}
 	panic(unsupported(fmt.Sprintf("load through value kind %d", p.K)))
+}
+
+// loadSlicePtr reads the slice header a pointer to a (named) slice type points to.  The
+// header lives in four heaps indexed by the pointer, like the fields of a struct; nothing in
+// the modelled subset stores through such a pointer, so the heaps stay the entry constants and
+// what a callee says about `deref(result)` is all that is known of a header.
+func (fc *FnCtx) loadSlicePtr(h map[string]*Term, p Val) (Val, bool) {
+	pt, ok := p.Typ.Underlying().(*types.Pointer)
+	if !ok {
+		return Val{}, false
+	}
+	if _, ok := pt.Elem().Underlying().(*types.Slice); !ok {
+		return Val{}, false
+	}
+	f := func(comp string) *Term { return mkSelect(fc.heapIn(h, "SlicePtr_"+comp, SArr), p.T) }
+	return sliceVal(f("arr"), f("off"), f("len"), f("cap"), pt.Elem()), true
 }
 
 func (fc *FnCtx) ensureHeapSyms(s *State) {}
